@@ -69,10 +69,10 @@ def run(chk):
         "no two static routes with the same method and path (quantifier of C01)",
     ]
     if thorough:
-        run_instance(chk, "i-pool49-len6-t2", pool, 6, 2, only=SEL)
+        run_instance(chk, "i-pool49-len6-t2", pool, 6, 2, only=SEL, harness_env={"VERIF_MATCH_CONC": "1"})
         run_instance(chk, "ii-pool24-len5-t3", pool[::2][:24] + ["/.a/{x}"], 5, 3, only=SEL)
     else:
-        run_instance(chk, "i-pool49-len5-t2", pool, 5, 2, only=SEL)
+        run_instance(chk, "i-pool49-len5-t2", pool, 5, 2, only=SEL, harness_env={"VERIF_MATCH_CONC": "1"})
     # several methods: routes with one or two methods sharing a first segment (the index is keyed by method + first segment,
     # the cache by method + path), requests for both methods, tables of up to 3 routes
     run_instance(chk, "iii-methods", ["/a/{x}", "/a/{x:dig}", "/a/{x}/b", "/{x}/{y}", "/a/1"] + (["/a[/{x}]", "/*"] if thorough else []),
